@@ -32,8 +32,34 @@ fn scenarios() -> Vec<Box<dyn Scenario>> {
     vec![Box::new(c06::C06), Box::new(c07::C07), Box::new(c08::C08), Box::new(c09::C09)]
 }
 
+/// A logger that formats every record and throws the text away: an
+/// application usually has one installed, and the `Display`/`Debug`
+/// implementations the library uses in its log messages only run then.
+struct FormatAll;
+
+impl log::Log for FormatAll {
+    fn enabled(&self, _: &log::Metadata) -> bool {
+        true
+    }
+    fn log(&self, record: &log::Record) {
+        use std::fmt::Write;
+        thread_local! { static BUF: std::cell::RefCell<String> = const { std::cell::RefCell::new(String::new()) }; }
+        BUF.with(|b| {
+            if let Ok(mut b) = b.try_borrow_mut() {
+                b.clear();
+                let _ = write!(b, "{}", record.args());
+            }
+        });
+    }
+    fn flush(&self) {}
+}
+
+static FORMAT_ALL: FormatAll = FormatAll;
+
 fn main() {
     exec::install_quiet_panic_hook();
+    let _ = log::set_logger(&FORMAT_ALL);
+    log::set_max_level(log::LevelFilter::Trace);
     let args: Vec<String> = std::env::args().skip(1).collect();
     // anything that escapes is a bug of the driver: exit 2, never 101
     let code = match std::panic::catch_unwind(|| real_main(&args)) {
